@@ -121,6 +121,10 @@ Proof. unfold cancel, suggest. cbn [negb]. eexists. split; reflexivity. Qed.
 Lemma cancel_serialised_now : c10_cancel_locks = true /\ c10_cancel_unlocks = true.
 Proof. split; reflexivity. Qed.
 
+Lemma cancel_lock_first_now :
+  c10_cancel_top_stmts = [bos "c.mtx.Lock()"; bos "defer c.mtx.Unlock()"] /\ c10_cancel_defers = [bos "c.mtx.Unlock()"].
+Proof. split; vm_compute; reflexivity. Qed.
+
 (* an error is returned unless the node took the replacement *)
 Lemma ok_only_if_accepted c l tip price s b :
   ret_ok (cancel c l tip price s b) = true -> b = true /\ exists t, cancel c l tip price s b = CSubmit t true.
@@ -153,6 +157,32 @@ Example example_refusals :
   cancel ex_client (LFound (Some ex_orig) true) TipErr PriceErr true true = CRefuse RSuggest /\
   cancel ex_client (LFound (Some ex_orig) true) (TipOk 1) PriceErr false true = CRefuse RSign.
 Proof. repeat split. Qed.
+
+
+(* Source shape of CancelTx that [cancel] rests on, regenerated from evmclient.go on every run (source
+   text, white space normalised): the replacement literal field by field (Nonce, ChainID, To, Value, Gas,
+   fee fields, Data BY NAME -- not by position of a literal), the two assignments of gasTipCap (original's
+   tip, then the 110/100 bump), the fee cap taken from the original and raised by gasFeeCap.Add(gasFeeCap,
+   gasTipCap), the price handed to the suggestion, what is signed and submitted; exactly one Lock and one
+   Unlock call; and CancelTx consults neither the original's chain id nor its type (txn.ChainId / txn.Type
+   are not called), so [orig] needs no such fields.
+   Lock first / Unlock deferred: [cancel_lock_first_now].  Not pinned: statement order further down. *)
+Lemma cancel_source_shape_now :
+  c10_cancel_tx_src =
+    [bos "types.NewTx(&types.DynamicFeeTx{ Nonce: txn.Nonce(), ChainID: c.chainID, To: &c.owner, Value: big.NewInt(0), Gas: 21000, GasFeeCap: gasFeeCap, GasTipCap: gasTipCap, Data: []byte{}, })"] /\
+  c10_cancel_tip_src =
+    [bos "txn.GasTipCap()"; bos "new(big.Int).Div(new(big.Int).Mul(gasTipCap, big.NewInt(110)), big.NewInt(100))"] /\
+  c10_cancel_fee_src = [bos "txn.GasFeeCap()"] /\
+  c10_cancel_fee_add = [[bos "gasFeeCap"; bos "gasTipCap"]] /\
+  c10_cancel_suggest_args = [[bos "ctx"; bos "txn.GasPrice()"]] /\
+  c10_cancel_sign_args = [[bos "tx"; bos "c.chainID"]] /\
+  c10_cancel_submit_args = [[bos "ctx"; bos "signedTx"]] /\
+  c10_cancel_lock_calls = [[]] /\ c10_cancel_unlock_calls = [[]] /\
+  c10_cancel_reads_chain = false /\ c10_cancel_reads_type = false.
+Proof. repeat split; vm_compute; reflexivity. Qed.
+
+Lemma cancel_ints_table : c10_cancel_ints = [0; 0; 110; 100; 0; 21000].
+Proof. reflexivity. Qed.
 
 (* the boolean checker of check/Check_C10.v never fires on the model's own prediction, and the
    model agrees with itself *)
